@@ -345,6 +345,9 @@ def run_unit(modname, target, label, timeout_ms=10000, replay_dir=None, prop="C?
                 continue        # a generator under verification never calls itself
             call_contracts.setdefault(c.target, []).append(c)
         eng = Interp(contracts=call_contracts)
+        # wall-clock budget per unit: exploration stops (undecided), discharge and replay are skipped for what is left
+        budget = float(os.environ.get("PYVC_UNIT_BUDGET_S", "300" if timeout_ms <= 10000 else "3600"))
+        eng.deadline = t0 + budget
         fs = eng.verify(contract, config, label)
         res["function"] = fs.describe()
         # induction steps of the lemmas attached to the spec functions this unit used
@@ -352,7 +355,7 @@ def run_unit(modname, target, label, timeout_ms=10000, replay_dir=None, prop="C?
         from .engine import Obligation
         for nm, hyps, goal in _spec.lemma_obligations():
             eng.obligations.append(Obligation("lemma-induction/%s" % nm, "lemma", hyps, goal, 0, "induction step of the spec lemma"))
-        discharge.discharge_all(eng.obligations, timeout_ms)
+        discharge.discharge_all(eng.obligations, timeout_ms, deadline=eng.deadline)
         seen = set()
         for ob in eng.obligations:
             try:
